@@ -25,9 +25,10 @@ def main():
     props = sorted(f for f in os.listdir(os.path.join(HERE, "props")) if f.startswith("C") and f.endswith(".py"))
     checks = []
     claimed = set()
+    registered = set(json.load(open(os.path.join(HERE, "registered.json"))))
     for f in props:
         m = meta_of(os.path.join(HERE, "props", f))
-        if "MANIFEST" not in m:
+        if "MANIFEST" not in m or m.get("ID") not in registered:
             continue
         pid = m["ID"]
         mm = m["MANIFEST"]
